@@ -8,7 +8,7 @@ if [ -d cmd/vinstr ]; then go build -o bin/vinstr ./cmd/vinstr; fi
 # warm the cache: plain build of every check that needs no overlay, and of the repository
 (cd /repo && go build ./... ) || true
 for d in checks/*/; do
-  [ -f "$d/instr.conf" ] && continue
   go build -tags verif -o /dev/null "./$d" || true
+  if [ -f "$d/racepass" ]; then go build -race -tags verif -o /dev/null "./$d" || true; fi
 done
 echo setup done
